@@ -418,6 +418,52 @@ def rule_arg_converters(ctx, rep):
         raise AnalysisError("no add_argument(type=...) found in codemodder.cli")
 
 
+PARSER_OPTION_DENY = {
+    "fromfile_prefix_chars": "every token starting with that character -- option values included -- is replaced by the lines of a file, or rejected when no such file exists",
+    "prefix_chars": "changes which tokens are options",
+    "argument_default": "changes the value of every option that was not given",
+    "conflict_handler": "lets a later add_argument silently replace an option",
+    "exit_on_error": "argument errors no longer leave through error() (status 3)",
+    "parents": "imports options from another parser",
+}
+
+
+def rule_parser_plain(ctx, rep, rule_id="R-PARSER-PLAIN"):
+    """Shared by C17 / C20: how command-line tokens are interpreted is argparse's default."""
+    rep.rule(
+        rule_id,
+        "every ArgumentParser the command line is parsed with is built with argparse's default token handling: none of "
+        + ", ".join(sorted(PARSER_OPTION_DENY)) + " is passed (by the call or by the repo's subclass constructor) -- each of them changes "
+        "which ids / paths an option value denotes or which status a bad argument ends with",
+        min_instances=1,
+    )
+    n = 0
+    for fn in [f for f in ctx.prog.live_functions() if f.module.name.startswith("codemodder.")]:
+        r = ctx.resolver(fn)
+        for c in walk_no_nested(fn.node):
+            if not isinstance(c, ast.Call):
+                continue
+            q = r.callee_qname(c) or ""
+            is_parser = q == "argparse.ArgumentParser" or (q in ctx.prog.classes and "argparse.ArgumentParser" in ctx.prog.mro(q) + ctx.prog.external_bases(q))
+            sup_init = (fn.name == "__init__" and fn.cls is not None and "argparse.ArgumentParser" in ctx.prog.mro(fn.cls.qname) + ctx.prog.external_bases(fn.cls.qname)
+                        and isinstance(c.func, ast.Attribute) and c.func.attr == "__init__")
+            if not (is_parser or sup_init):
+                continue
+            n += 1
+            bad = [k.arg for k in c.keywords if k.arg in PARSER_OPTION_DENY]
+            star = [k for k in c.keywords if k.arg is None and not sup_init]
+            rep.check(rule_id, fn.qname, fn.loc(c), not bad and not star, "parser-options",
+                      (f"the parser is built with {bad[0]}=...: {PARSER_OPTION_DENY[bad[0]]}" if bad else "the parser's options are passed as **kwargs and cannot be read"))
+            # set_defaults / attribute stores that do the same after construction
+    for fn in [f for f in ctx.prog.live_functions() if f.module.name == "codemodder.cli"]:
+        for a in walk_no_nested(fn.node):
+            if isinstance(a, ast.Assign) and isinstance(a.targets[0], ast.Attribute) and a.targets[0].attr in PARSER_OPTION_DENY and "parser" in unparse(a.targets[0].value).lower():
+                n += 1
+                rep.check(rule_id, fn.qname, fn.loc(a), False, "parser-options", f"`{unparse(a)[:60]}` changes the parser's token handling after construction: {PARSER_OPTION_DENY[a.targets[0].attr]}")
+    if n == 0:
+        raise AnalysisError("no ArgumentParser construction found under codemodder.*")
+
+
 def rule_report_try_minimal(ctx, rep):
     rep.rule(
         "R-REPORT-TRY-MINIMAL",
@@ -455,6 +501,7 @@ def check(ctx, rep):
     rule_ai_config(ctx, rep)
     rule_report_try_minimal(ctx, rep)
     rule_arg_converters(ctx, rep)
+    rule_parser_plain(ctx, rep)
     from .c12 import rule_every_input_read
 
     # the duplicate-tool status (1) depends on every run of every SARIF input being looked at: a handler that ends the reading of a file early hides a duplicate
